@@ -84,6 +84,27 @@ func kindTypeOf(e sx.Sexp) (px.Type, bool) {
 		return types.NewHashType(typeOf(a[0]), typeOf(a[1]), sizeOf(a[2], a[3])), true
 	case "like":
 		return types.NewLikeType(typeOf(a[0]), a[1].MustStr()), true
+	case "struct": // (struct (xNAME s|r|o T)*): plain string key / String['name'] key / Optional['name'] key
+		es := make([]*types.StructElement, 0, len(a))
+		for _, m := range a {
+			name, kind, vt := m.List[0].MustStr(), m.List[1].Atom, typeOf(m.List[2])
+			if name == "" {
+				panic(fmt.Errorf("bad struct member %s", m))
+			}
+			var key px.Value
+			switch kind {
+			case "s":
+				key = types.WrapString(name)
+			case "r":
+				key = types.NewStringType(nil, name)
+			case "o":
+				key = types.NewOptionalType(types.NewStringType(nil, name))
+			default:
+				panic(fmt.Errorf("bad struct member %s", m))
+			}
+			es = append(es, types.NewStructElement(key, vt))
+		}
+		return types.NewStructType(es), true
 	case "runtime": // (runtime xRT xNAME n|xPATTERN); the runtime `go` with a name is rejected by the constructor
 		var pat *types.RegexpType
 		if a[2].IsList || a[2].Atom != "n" {
@@ -180,6 +201,16 @@ func kindTypeStr(t px.Type) (string, bool) {
 			}
 		}
 		return "(runtime " + sx.Str(rts).Atom + " " + sx.Str(name).Atom + " " + pat + ")", true
+	case *types.StructType:
+		xs := []string{}
+		for _, m := range t.Elements() {
+			k := "r"
+			if m.Optional() {
+				k = "o"
+			}
+			xs = append(xs, " ("+sx.Str(m.Name()).Atom+" "+k+" "+typeStr(m.Value())+")")
+		}
+		return "(struct" + strings.Join(xs, "") + ")", true
 	case *types.LikeType:
 		base, _ := t.Get("base_type")
 		nav, _ := t.Get("navigation")
@@ -253,6 +284,10 @@ var kindTypeLits = []string{
 	"(hash str (int 1 2) 0 " + maxS + ")", "(hash (int 1 2) str 0 " + maxS + ")", "(hash str (int 1 2) 1 2)", "(hash str (int 1 2) 1 " + maxS + ")", "(hash any unit 0 0)", "(hash (var str undef) str 0 3)", "(hash (var undef str) str 0 3)",
 	"(runtime x x n)", "(runtime x x78 n)", "(runtime x x79 n)", "(runtime x72756279 x n)", "(runtime x72756279 x78 n)", "(runtime x72756279 x79 n)", "(runtime x72756279 x78 x79)",
 	"(runtime x72756279 x78 x)", "(runtime x72756279 x x79)", "(runtime x72756279 x x78)", "(runtime x x x79)", "(runtime x6a617661 x78 n)", "(runtime x676f x n)",
+	"(struct)", "(struct (x61 s (int 1 2)))", "(struct (x61 r (int 1 2)))", "(struct (x61 o (int 1 2)))", "(struct (x61 s (opt (int 1 2))))", "(struct (x61 r (opt (int 1 2))))",
+	"(struct (x61 o (opt (int 1 2))))", "(struct (x61 s (int 1 2)) (x62 s str))", "(struct (x62 s str) (x61 s (int 1 2)))", "(struct (x62 s (int 1 2)))", "(struct (x61 s any))", "(struct (x61 r any))",
+	"(struct (x4f7074696f6e616c5b2761275d s (int 1 2)))", "(struct (x4e6f74556e6465665b2761275d s (opt (int 1 2))))", "(struct (x61 s (var str undef)))", "(struct (x61 s (var undef str)))",
+	"(struct (x61 s (struct (x62 s str))))", "(struct (x61 s data))", "(struct (x61 s unit))", "(struct (x61030c017409017349 s str))",
 	"(like any x)", "(like str x)", "(like str x61)", "(like str x62)", "(like any x61)", "(like (int 1 2) x61)",
 	"callable", "(callable)", "(callable str)", "(callable (int 1 2))", "(callable str (int 1 2))", "(callable unit str)", "(callable str unit)", "(callable unit)",
 	"(callable (var str undef))", "(callable (var undef str))",
@@ -293,7 +328,18 @@ func randKindType(r *rand.Rand, depth int) string {
 		}
 		return strconv.FormatInt(lo, 10) + " " + hi
 	}
-	switch r.Intn(17) {
+	switch r.Intn(18) {
+	case 17:
+		n := r.Intn(3)
+		s := "(struct"
+		for i := 0; i < n; i++ {
+			v := sub()
+			if strings.Contains(v, "like") { // Like types do not resolve: NewStructElement asks whether the value type accepts undef
+				v = "str"
+			}
+			s += " (" + sx.Str([]string{"a", "b", "Optional['a']"}[r.Intn(3)]).Atom + " " + []string{"s", "r", "o"}[r.Intn(3)] + " " + v + ")"
+		}
+		return s + ")"
 	case 16:
 		rt := []string{"", "ruby", "java"}[r.Intn(3)]
 		pat := "n"
@@ -445,6 +491,28 @@ func mutKindType(r *rand.Rand, t sx.Sexp) (sx.Sexp, bool) {
 			return sx.T("like", mutType(r, a[0]), a[1]), true
 		}
 		return sx.T("like", a[0], sx.Str(a[1].MustStr()+"x")), true
+	case "struct":
+		if len(a) == 0 {
+			return mk("(struct (x61 s str))"), true
+		}
+		i := r.Intn(len(a))
+		xs := append([]sx.Sexp{}, a...)
+		m := a[i].List
+		switch r.Intn(5) {
+		case 0:
+			xs[i] = sx.L(sx.Str(m[0].MustStr()+"x"), m[1], m[2])
+		case 1:
+			xs[i] = sx.L(m[0], sx.A([]string{"s", "r", "o"}[r.Intn(3)]), m[2])
+		case 2:
+			if v := mutType(r, m[2]); !strings.Contains(v.String(), "like") {
+				xs[i] = sx.L(m[0], m[1], v)
+			}
+		case 3:
+			r.Shuffle(len(xs), func(i, j int) { xs[i], xs[j] = xs[j], xs[i] })
+		default:
+			xs = append(xs[:i], xs[i+1:]...)
+		}
+		return sx.T("struct", xs...), true
 	case "runtime":
 		xs := append([]sx.Sexp{}, a...)
 		switch r.Intn(4) {
